@@ -63,7 +63,10 @@ function usesIndexedAccess(prog, t, seen = new Set()) {
         seen.add(x.name);
         const d = prog.decls.find((d) => d.name === x.name);
         if (d && d.d === "alias") visit(d.t);
-        if (d && d.d === "iface") d.props.forEach((p) => visit(p.t));
+        if (d && d.d === "iface") {
+          d.props.forEach((p) => visit(p.t));
+          (d.ext || []).forEach((e) => visit(e)); // inherited members
+        }
       }
       return x;
     });
